@@ -337,7 +337,7 @@ fn handle(sh: &Arc<Shared>, mut rq: Request, c: usize, m: usize) {
         world::log(format!("\"ev\":\"Ask\",\"c\":{},\"m\":{}", c, m));
         let _ = rq.as_reader();
     }
-    if !plan.read.is_empty() || plan.to_eof {
+    if !plan.read.is_empty() || plan.to_eof || plan.upto.map_or(false, |u| u > 0) {
         let mut off = 0usize;
         let mut sizes = plan.read.clone();
         if sizes.is_empty() {
@@ -346,9 +346,15 @@ fn handle(sh: &Arc<Shared>, mut rq: Request, c: usize, m: usize) {
         let mut i = 0;
         let mut first = plan.ask == 0;
         loop {
-            let want = if i < sizes.len() { sizes[i] } else { *sizes.last().unwrap() };
-            if i >= sizes.len() && !plan.to_eof {
+            let mut want = if i < sizes.len() { sizes[i] } else { *sizes.last().unwrap() };
+            if i >= sizes.len() && !plan.to_eof && plan.upto.is_none() {
                 break;
+            }
+            if let Some(u) = plan.upto {
+                if off >= u {
+                    break;
+                }
+                want = want.min(u - off);
             }
             i += 1;
             if first {
